@@ -77,6 +77,9 @@ type AssertSpec struct {
 type GhostVar struct {
 	Name string
 	Sort Sort
+	// SpecOnly ghosts are pure specification state (phases, "done" sets):
+	// only contracts change them, code without a contract cannot.
+	SpecOnly bool
 }
 
 type SpecFn struct {
@@ -220,11 +223,16 @@ func (sp *Specs) loadSpecFile(path, pkg string) error {
 				}
 			case "ghost":
 				w2, r2 := splitWord(rest)
+				specOnly := false
+				if w2 == "spec" {
+					specOnly = true
+					w2, r2 = splitWord(r2)
+				}
 				if w2 != "var" {
-					return fail(l, "expected 'ghost var'")
+					return fail(l, "expected 'ghost [spec] var'")
 				}
 				name, srt := splitWord(r2)
-				sp.Ghosts[name] = &GhostVar{name, Sort(strings.TrimSpace(srt))}
+				sp.Ghosts[name] = &GhostVar{Name: name, Sort: Sort(strings.TrimSpace(srt)), SpecOnly: specOnly}
 			case "const":
 				name, r2 := splitWord(rest)
 				r2 = strings.TrimSpace(strings.TrimPrefix(strings.TrimSpace(r2), "="))
@@ -322,11 +330,12 @@ func (sp *Specs) loadSpecFile(path, pkg string) error {
 			c.Props = append(c.Props, strings.Fields(rest)...)
 		case "params":
 			c.Params = strings.Fields(strings.ReplaceAll(rest, ",", " "))
-		case "requires":
-			cl, err := parseClause(rest, l.pos, false)
+		case "requires", "requires*":
+			cl, err := parseClause(rest, l.pos, true)
 			if err != nil {
 				return fail(l, "%v", err)
 			}
+			cl.Star = word == "requires*"
 			c.Requires = append(c.Requires, cl)
 		case "ensures", "ensures*":
 			cl, err := parseClause(rest, l.pos, true)
